@@ -17,7 +17,7 @@ oracle of harness/props/c29.py; "genotypes unchanged" follows from `tree_iso` +
 `mutation_moves_to_present_piece` by tskit's decoding contract and is checked by the oracle.
 -/
 import Mathlib.Tactic.IntervalCases
-import TsdateVerif.Proofs.SplitNoop
+import TsdateVerif.Proofs.SplitMut
 
 namespace Tsdate.C29
 open Tsdate Tsdate.Split
@@ -146,6 +146,51 @@ theorem idempotent_same_order (hv : Valid N es ord) :
       rw [outEdges_get es _ e he]
       simp [newNode, List.getD_eq_getElem?_getD, List.getElem?_eq_getElem h2]
 
+/-! ### Mutations (`_relabel_mutations_node`)
+
+`insIdx` / `remIdx` are tskit's edge insertion / removal orders, `muts` the `(position, node)` pairs of
+the mutation table in table order, `zero` the initial `left = 0.0` of the sweep. -/
+
+/-- **The sweep computes its specification.** For sorted indexes the nested `while` loops of
+`_relabel_mutations_node` terminate (the model's fuel suffices) and assign to every mutation
+`nodes_map[node]` *as it is after inserting, in insertion order, exactly the edges whose left end is
+`≤` the mutation's position* (falling back to the old id when that entry is still `NULL`).  In
+particular a mutation exactly at a breakpoint sees the tree that starts there. -/
+theorem mutation_sweep_spec (zero : α) (hv : Valid N es ord) (insIdx remIdx : List Nat)
+    (muts : List (α × Nat)) (hvi : Valid N es insIdx) (hrem : RemOK es remIdx)
+    (h0 : ∀ e, e < es.size → zero ≤ (aget es e).left)
+    (hms : muts.Pairwise (fun a b => a.1 ≤ b.1)) (hm0 : ∀ m ∈ muts, zero ≤ m.1) :
+    relabelMutations zero (splitDisjoint N excl es ord).order.toArray
+        (insEvs es (splitDisjoint N excl es ord) insIdx)
+        (remIdx.map (fun e => (aget es e).right)) muts =
+      some (muts.map (fun m => assign (mapUpTo (splitDisjoint N excl es ord).order.toArray
+        (insEvs es (splitDisjoint N excl es ord) insIdx) m.1) m.2)) :=
+  relabel_refines zero _ _ _ muts
+    (sweepOK_of_tables zero (splitDisjoint N excl es ord) insIdx remIdx muts hvi hrem h0 hms hm0)
+
+/-- **Each mutation's new node maps back to its old node and is present at the mutation's position.**
+For a mutation at `x` on node `u < N` the assigned output node `v` satisfies `nodes_order[v] = u`;
+if `u` is in the local tree at `x` through edge `e` (as parent or child) then `v` is exactly the
+output endpoint of `e`, i.e. the piece present at `x`; and if no edge of `u` starts at or left of `x`
+(node not yet seen: isolated sample, site left of every edge of `u`) the mutation keeps the id `u`.
+In between (node absent at `x` but seen before) it sits on the last piece that started left of `x` —
+still a copy of `u` by the first clause. -/
+theorem mutation_moves_to_present_piece (hv : Valid N es ord) (insIdx : List Nat)
+    (hvi : Valid N es insIdx) (x : α) (u : Nat) (hu : u < N) :
+    orig (splitDisjoint N excl es ord)
+      (assign (mapUpTo (splitDisjoint N excl es ord).order.toArray
+        (insEvs es (splitDisjoint N excl es ord) insIdx) x) u) = u ∧
+    (∀ e r, e < es.size → oldNode es e r = u → covers es e x →
+      assign (mapUpTo (splitDisjoint N excl es ord).order.toArray
+        (insEvs es (splitDisjoint N excl es ord) insIdx) x) u = newNode (splitDisjoint N excl es ord) e r) ∧
+    ((∀ e, e < es.size → ∀ r, oldNode es e r = u → x < (aget es e).left) →
+      assign (mapUpTo (splitDisjoint N excl es ord).order.toArray
+        (insEvs es (splitDisjoint N excl es ord) insIdx) x) u = u) := by
+  refine ⟨assign_maps_back excl hv insIdx x u hu, ?_, assign_absent excl hv insIdx hvi x u⟩
+  intro e r he hold hc
+  rw [← hold]
+  exact assign_present excl hv insIdx hvi x e he r hc
+
 /-! ### Non-vacuity: a node in two pieces
 
 Nodes 0,1 are samples, node 2 is their parent on `[0,2)` and again on `[5,7)`; node 3 is a parent of
@@ -160,6 +205,19 @@ example : Valid 4 exEdges [0, 1, 2, 3, 4] := by
 
 example : splitDisjoint 4 #[true, true, false, false] exEdges [0, 1, 2, 3, 4] =
     { parent := [2, 2, 3, 4, 4], child := [0, 1, 2, 0, 1], order := [0, 1, 2, 3, 2], split := [2] } := by
+  decide +kernel
+
+example : RemOK exEdges [0, 1, 2, 3, 4] := by
+  refine ⟨by decide, ?_, by decide⟩
+  intro e he; have : e < 5 := he; interval_cases e <;> decide
+
+/-- Mutations on node 2 at positions 1 (first piece), 3 (in the gap: stale first piece), 5 (exactly at
+the breakpoint where the second piece starts), 9 (right of the last edge: last piece), and one on the
+isolated sample 0 at position 3. -/
+example : relabelMutations 0 #[0, 1, 2, 3, 2]
+    (insEvs exEdges { parent := [2, 2, 3, 4, 4], child := [0, 1, 2, 0, 1], order := [0, 1, 2, 3, 2], split := [2] }
+      [0, 1, 2, 3, 4])
+    [2, 2, 2, 7, 7] [(1, 2), (3, 2), (3, 0), (5, 2), (9, 2)] = some [2, 2, 0, 4, 4] := by
   decide +kernel
 
 end Tsdate.C29
